@@ -595,8 +595,8 @@ func c07Inputs(c *Check) map[string][][]byte {
 			if n > 1001 && open == "@(" {
 				continue // unclosed edges cost quadratic time (C08 finding); here only "does it return"
 			}
-			if n >= 2000000 && open != "[" {
-				continue
+			if n > 100000 && open != "[" {
+				continue // nested comments and maps are slower still per level; the question here is "does it return"
 			}
 			in["deep-cte"] = append(in["deep-cte"], []byte("c0\n"+strings.Repeat(open, n)))
 		}
